@@ -12,8 +12,7 @@ EXPLANATION = ("PARTIAL. Decided: error protocol and memory safety of Bragg_angl
                "NOT decided by this family (needs properties of sin/cos/asin/sqrt or real algebra): 2 d sin(theta) = hc/E, inversion and 1/n "
                "scaling of d (real algebra on that expression), stored = recomputed volume for the built-in crystals (data), Friedel's law, "
                "additivity in the flags, the (0,0,0) Debye reduction.")
-ASSUMPTIONS = ["bounded: crystals of 2 atoms (structure-factor lemma)", "A-libm: sin/cos/asin are unknown pure functions",
-               "Atomic_Factors treats a factor that is exactly 0 as a failure (see known findings)"]
+ASSUMPTIONS = ["bounded: crystals of 2 atoms (structure-factor lemma)", "A-libm: sin/cos/asin are unknown pure functions"]
 
 
 def groups(sc, tier):
